@@ -809,13 +809,15 @@ func (tree *MutableTree) SaveVersion() ([]byte, int64, error) {
 }
 
 func (tree *MutableTree) saveFastNodeVersion(latestVersion int64) error {
+	// The label goes first: if the batch is flushed before the version is complete, the label
+	// does not match the latest version and the fast index is rebuilt on the next open.
+	if err := tree.ndb.SetFastStorageVersionToBatch(latestVersion); err != nil {
+		return err
+	}
 	if err := tree.saveFastNodeAdditions(); err != nil {
 		return err
 	}
-	if err := tree.saveFastNodeRemovals(); err != nil {
-		return err
-	}
-	return tree.ndb.SetFastStorageVersionToBatch(latestVersion)
+	return tree.saveFastNodeRemovals()
 }
 
 func (tree *MutableTree) getUnsavedFastNodeAdditions() map[string]*fastnode.Node {
